@@ -889,6 +889,130 @@ fn check_job_dbscan(run: &Run, rng: &mut Rng, case_seed: u64) {
     }
 }
 
+/// The search operator built on the tour re-sequencing (`LKHSearch`, both modes) on an unconstrained problem with TWO routing
+/// profiles whose symmetric matrices differ: the tour of a vehicle of either profile comes back as a permutation of the same
+/// activities with the same start, and its closed-tour cost in the matrix of the vehicle's OWN profile is not above the input's.
+fn check_lkh_operator(run: &Run, rng: &mut Rng, case_seed: u64) {
+    use vrp_core::construction::features::{MinimizeUnassignedBuilder, TransportFeatureBuilder};
+    use vrp_core::construction::heuristics::InsertionContext;
+    use vrp_core::models::problem::{MatrixData, SingleBuilder, VehicleBuilder, VehicleDetailBuilder, create_matrix_transport_cost};
+    use vrp_core::models::solution::Activity;
+    use vrp_core::models::{GoalContextBuilder, ProblemBuilder};
+    use vrp_core::rosomaxa::evolution::TelemetryMode;
+    use vrp_core::rosomaxa::prelude::{Environment, HeuristicSearchOperator};
+    use vrp_core::solver::search::{LKHSearch, LKHSearchMode};
+    use vrp_core::solver::{RefinementContext, create_elitism_population};
+    let size = rng.range_usize(5, 10);
+    let points = |rng: &mut Rng| -> Vec<(i64, i64)> { (0..size).map(|_| (rng.range_i64(0, 30), rng.range_i64(0, 30))).collect() };
+    let geo = [points(rng), points(rng)];
+    let matrix = |pts: &[(i64, i64)]| -> Vec<f64> {
+        pts.iter().flat_map(|a| pts.iter().map(move |b| (((a.0 - b.0).pow(2) + (a.1 - b.1).pow(2)) as f64).sqrt())).collect()
+    };
+    let matrices = [matrix(&geo[0]), matrix(&geo[1])];
+    let profile_idx = rng.usize_below(2);
+    let mut order: Vec<usize> = (1..size).collect();
+    rng.shuffle(&mut order);
+    let mode_diverse = rng.chance(0.5);
+    let input = json!({"kind": "lkh-operator", "case_seed": case_seed, "points_profile0": geo[0], "points_profile1": geo[1], "vehicle_profile": profile_idx,
+        "tour": order, "mode": if mode_diverse { "Diverse" } else { "ImprovementOnly" }});
+    let outcome = vverif::guard(|| -> Result<(Vec<usize>, Vec<Vec<usize>>), String> {
+        let e = |e: vrp_core::prelude::GenericError| e.to_string();
+        let transport = create_matrix_transport_cost(matrices.iter().enumerate().map(|(idx, m)| MatrixData::new(idx, None, m.clone(), m.clone())).collect()).map_err(e)?;
+        let jobs = (1..size).map(|idx| SingleBuilder::default().id(&format!("job{idx}")).location(idx)?.build_as_job()).collect::<Result<Vec<_>, _>>().map_err(e)?;
+        let vehicles = (0..2)
+            .map(|p| {
+                VehicleBuilder::default()
+                    .id(&format!("v{p}"))
+                    .set_profile_idx(p)
+                    .add_detail(VehicleDetailBuilder::default().set_start_location(0).set_end_location(0).build()?)
+                    .build()
+            })
+            .collect::<Result<Vec<_>, _>>()
+            .map_err(e)?;
+        let goal = GoalContextBuilder::with_features(&[
+            MinimizeUnassignedBuilder::new("min-unassigned").build().map_err(e)?,
+            TransportFeatureBuilder::new("min-distance").set_transport_cost(transport.clone()).set_time_constrained(false).build_minimize_distance().map_err(e)?,
+        ])
+        .and_then(|b| b.build())
+        .map_err(e)?;
+        let problem = Arc::new(
+            ProblemBuilder::default()
+                .add_jobs(jobs.into_iter())
+                .add_vehicles(vehicles.into_iter())
+                .with_goal(goal)
+                .with_transport_cost(transport)
+                .with_logger(Arc::new(|_: &str| ()))
+                .build()
+                .map_err(e)?,
+        );
+        let environment = Arc::new(Environment::new(Arc::new(vrp_core::rosomaxa::prelude::DefaultRandom::default()), None, vrp_core::rosomaxa::utils::Parallelism::new_with_cpus(1), Arc::new(|_: &str| ()), false));
+        let mut ctx = InsertionContext::new(problem.clone(), environment.clone());
+        let mut route_ctx = ctx.solution.registry.next_route().find(|rc| rc.route().actor.vehicle.profile.index == profile_idx).ok_or("no vehicle with that profile")?.deep_copy();
+        for &location in order.iter() {
+            let job = problem.jobs.all().iter().find(|job| job.to_single().places.first().and_then(|p| p.location) == Some(location)).ok_or("no job at that location")?;
+            let mut activity = Activity::new_with_job(job.to_single().clone());
+            activity.place.location = location;
+            route_ctx.route_mut().tour.insert_last(activity);
+        }
+        ctx.solution.registry.use_route(&route_ctx);
+        ctx.solution.routes.push(route_ctx);
+        ctx.solution.required.clear();
+        ctx.restore();
+        let refinement_ctx = RefinementContext::new(problem.clone(), Box::new(create_elitism_population(problem.goal.clone(), environment.clone())), TelemetryMode::None, environment);
+        let mode = if mode_diverse { LKHSearchMode::Diverse } else { LKHSearchMode::ImprovementOnly };
+        let result = LKHSearch::new(mode).search(&refinement_ctx, &ctx);
+        let locations = |c: &InsertionContext| -> Vec<Vec<usize>> { c.solution.routes.iter().map(|rc| rc.route().tour.all_activities().map(|a| a.place.location).collect()).collect() };
+        let before = locations(&ctx);
+        Ok((before.first().cloned().unwrap_or_default(), locations(&result)))
+    });
+    run.eval();
+    run.observe("lkh.origin", "search-operator");
+    run.observe("lkh-operator.vehicle-profile", &profile_idx.to_string());
+    run.observe("lkh-operator.mode", if mode_diverse { "Diverse" } else { "ImprovementOnly" });
+    let (before, after) = match outcome {
+        Ok(Ok(v)) => v,
+        Ok(Err(e)) => {
+            run.inconclusive(&format!("lkh operator: cannot build the case: {}", vverif::clip(&e, 60)));
+            return;
+        }
+        Err(p) => {
+            run.violation(&format!("C17|lkh-operator|panic|{}", p.file()), &format!("LKHSearch panicked: {} at {}", vverif::clip(&p.message, 120), p.location), json!({"input": input, "panic": p.to_json()}));
+            return;
+        }
+    };
+    let art = |extra: Value| json!({"input": input, "before": before, "after": after, "details": extra});
+    if after.len() != 1 || after[0].len() != before.len() {
+        run.violation("C17|lkh-operator|not-a-permutation", &format!("one tour {before:?} went in, {after:?} came back"), art(Value::Null));
+        return;
+    }
+    // closed tours: the last entry is the return to the start
+    let (b, a) = (&before[..before.len() - 1], &after[0][..after[0].len() - 1]);
+    let (mut sb, mut sa) = (b.to_vec(), a.to_vec());
+    sb.sort();
+    sa.sort();
+    if sb != sa {
+        run.violation("C17|lkh-operator|not-a-permutation", &format!("{b:?} -> {a:?}"), art(Value::Null));
+        return;
+    }
+    if b.first() != a.first() {
+        run.violation("C17|lkh-operator|start-node-changed", &format!("{b:?} -> {a:?}"), art(Value::Null));
+        return;
+    }
+    let own = &matrices[profile_idx];
+    let cost = |nodes: &[usize]| -> f64 { (0..nodes.len()).map(|i| own[nodes[i] * size + nodes[(i + 1) % nodes.len()]]).sum() };
+    let (cb, ca) = (cost(b), cost(a));
+    if ca > cb + 1e-9 * cb.max(1.) {
+        run.violation("C17|lkh-operator|cost-increased", &format!("closed-tour cost in the matrix of the vehicle's own profile {profile_idx} went up: {cb} -> {ca} ({b:?} -> {a:?})"), art(json!({"cost_before": cb, "cost_after": ca})));
+        return;
+    }
+    if ca < cb - 1e-9 {
+        run.observe("lkh-operator.outcome", "improved");
+        run.nontrivial(&format!("lkh-operator|{:?}|{:?}|{profile_idx}|{order:?}|{mode_diverse}", geo[0], geo[1]));
+    } else {
+        run.observe("lkh-operator.outcome", "same cost");
+    }
+}
+
 fn check_dbscan(run: &Run, case: &DbCase, case_seed: u64, origin: &str) -> bool {
     let n = case.pts.len();
     let result = run_dbscan(case);
@@ -1481,6 +1605,10 @@ fn check_case(run: &Run, watch: &Watch, phase: u64, i: u64, case_seed: u64) {
     let started = Instant::now();
     let slot = phase << 62 | i;
     match kind {
+        0 if rng.chance(0.08) => {
+            watch.enter(slot, format!("lkh operator case_seed={case_seed}"));
+            check_lkh_operator(run, &mut rng, case_seed);
+        }
         0 => {
             let case = gen_lkh_case(&mut rng);
             watch.enter(slot, format!("lkh case_seed={case_seed} n={}", case.ids.len()));
@@ -1671,6 +1799,8 @@ fn main() {
     run.floor("dbscan cases", run.observed("dbscan.origin", "random"), 300);
     run.floor("dbscan results with core+border+noise", run.observed("dbscan.shape", "core+border+noise"), 30);
     run.floor("dbscan results with >= 2 clusters", (2..=6).map(|c| run.observed("dbscan.clusters", &c.to_string())).sum(), 30);
+    run.floor("LKHSearch operator cases on a vehicle of the second routing profile", run.observed("lkh-operator.vehicle-profile", "1"), 20);
+    run.floor("LKHSearch operator cases which improved the tour", run.observed("lkh-operator.outcome", "improved"), 10);
     run.floor("job-level dbscan cases (create_job_clusters)", run.observed("dbscan.origin", "job-level"), 50);
     run.floor("job-level dbscan: coincident jobs next to jobs without location, with a cluster", run.observed("job-dbscan.features", "coincident jobs next to jobs without location, with a cluster"), 10);
     run.floor("dbscan min_points > n", run.observed("dbscan.min_points", ">n"), 5);
